@@ -404,7 +404,8 @@ def _named(chk, rule="SERIAL.named"):
         fit = cls.methods.get("fit")
         if gsa is None or fit is None or not cls.qualname.startswith("xeofs.preprocessing"):
             continue
-        listed = {k.arg for r in returns_of(gsa) if isinstance(r.value, ast.Call) for k in r.value.keywords if k.arg}
+        listed = {k.arg for r in returns_of(gsa) if isinstance(r.value, ast.Call) for k in r.value.keywords if k.arg} | \
+            {const_str(k) for r in returns_of(gsa) if isinstance(r.value, ast.Dict) for k in r.value.keys if k is not None and const_str(k)}
         ff = FuncFacts.of(fit)
         data_param = [p for p in fit.params if p != "self"][:1]
         for st in ff.statements():
